@@ -21,6 +21,9 @@ use vrp_core::solver::{RefinementContext, TargetSearchOperator, create_elitism_p
 use vrp_verif_harness::pragen::*;
 use vrp_verif_harness::*;
 
+/// operators a script number >= 1 000 000 selects by name
+const NAMED_OPERATORS: &[&str] = &["redistribute", "infeasible_search", "redistribute", "lkh_diverse", "redistribute", "infeasible_search"];
+
 pub fn gen_cases(rng: &mut Rng, tier: Tier) -> Vec<Value> {
     let (n, steps) = if tier == Tier::Thorough { (1500, 60) } else { (120, 25) };
     (0..n)
@@ -35,7 +38,28 @@ pub fn gen_cases(rng: &mut Rng, tier: Tier) -> Vec<Value> {
             // one history in four runs on long tours (the stochastic leg selection only samples from 16-32 legs on)
             let long = i % 4 == 3;
             let cfg = if long { GenCfg::long_tours() } else { cfg };
+            // one history in four has tight tour size limits, pickup-and-delivery jobs and relations,
+            // and spends half of its steps in the operators that repair a solution or redistribute jobs: the places where
+            // limits and locks are re-checked outside the ordinary insertion path
+            let tight = !long && (i % 8 == 5 || i % 8 == 1);
+            let cfg = if tight {
+                let mut c = cfg;
+                c.multi_jobs = true;
+                c.tags = true;
+                c.limits = true;
+                c.reloads = false;
+                c
+            } else {
+                cfg
+            };
             let mut sp = gen_problem(rng, &cfg);
+            if tight {
+                for v in sp.vehicles.iter_mut() {
+                    v.tour_size = Some(rng.usize(3, 5));
+                    v.max_distance = None;
+                    v.max_duration = None;
+                }
+            }
             // one history in three runs under explicit objectives which keep per-solution aggregates (work balance,
             // compact tours, soft tour order): their cached values must follow every step as well
             if i % 3 == 2 {
@@ -46,10 +70,16 @@ pub fn gen_cases(rng: &mut Rng, tier: Tier) -> Vec<Value> {
             let ops: Vec<u64> = (0..if long { steps * 2 } else { steps })
                 .map(|_| {
                     let r = rng.next() % 100_000;
-                    if long && rng.chance(1, 2) { r | 1 } else { r }
+                    if long && rng.chance(1, 2) {
+                        r | 1
+                    } else if tight && rng.chance(1, 2) {
+                        1_000_000 + rng.next() % 6
+                    } else {
+                        r
+                    }
                 })
                 .collect();
-            json!({"k": "history", "sp": sp, "ops": ops, "relations": i % 3 == 1, "rseed": rng.next() % 1000})
+            json!({"k": "history", "sp": sp, "ops": ops, "relations": i % 3 == 1 || tight, "rseed": rng.next() % 1000})
         })
         .collect()
 }
@@ -393,11 +423,16 @@ pub fn exec(case: &Value) -> Value {
             // three independent digits of the script number: pool, operator index, diversification (an earlier version
             // derived all three from the same low bits, which never selected three of the single operators)
             let pool = if r % 2 == 0 && !singles.is_empty() { &singles } else { &pairs };
-            let (op, name, _) = &operators[pool[((*r / 16) as usize) % pool.len()]];
+            // script numbers from 1 000 000 on name an operator (the histories with tight tour size limits ask for the
+            // operators that repair or redistribute); unknown names fall back to the ordinary choice
+            let named = (*r >= 1_000_000)
+                .then(|| NAMED_OPERATORS[(*r as usize - 1_000_000) % NAMED_OPERATORS.len()])
+                .and_then(|wanted| operators.iter().position(|o| o.1 == wanted));
+            let (op, name, _) = &operators[named.unwrap_or(pool[((*r / 16) as usize) % pool.len()])];
             let parent_before_full = if std::env::var("C04_DEBUG").is_ok() { Some(full_digest(&problem, &ids, &cur)) } else { None };
             let parent_before = sha(&full_digest(&problem, &ids, &cur));
             // one step in eight goes through the diversification composite of the default heuristic (hook H8b)
-            let (child, name) = if (r / 2) % 8 == 6 && !diversify.is_empty() {
+            let (child, name) = if *r < 1_000_000 && (r / 2) % 8 == 6 && !diversify.is_empty() {
                 let mut out = diversify[(*r as usize / 16) % diversify.len()].diversify(&rctx, &cur);
                 if out.is_empty() { (op.search(&rctx, &cur), name.clone()) } else { (out.remove(0), "diversify".to_string()) }
             } else {
